@@ -26,6 +26,7 @@ def rot(D, ang):
 def job(a):
     D, cond, ang, mi, xi, seed = a[:6]
     box = a[6] if len(a) > 6 else 5.0   # half-width of the plausible box (hard box = 4x)
+    off = a[7] if len(a) > 7 else 0.0   # offset of the whole problem (box centre): all-positive parameter boxes
     from pybads import BADS
 
     R = rot(D, ang)
@@ -33,7 +34,10 @@ def job(a):
     A = R @ np.diag(ev) @ R.T
     mpat = [(-4, 0, 3), (0, 0, 0), (3, -3, 1.5)][mi]
     m = np.array([mpat[i % 3] for i in range(D)], float)
-    if xi == 3:      # warm start exactly at the minimiser
+    if xi == 5:      # near start on the other side
+        d = -np.ones(D) / np.sqrt(D)
+        x0 = (m + d * np.sqrt(0.1 / float(d @ A @ d))).reshape(1, D)
+    elif xi == 3:      # warm start exactly at the minimiser
         x0 = m.reshape(1, D).copy()
     elif xi == 4:    # start close to the minimiser: f(x0) - f* = 0.05
         d = np.ones(D) / np.sqrt(D)
@@ -41,6 +45,9 @@ def job(a):
     else:
         x0 = np.full((1, D), [-2.5, 0.0, 4.5][xi])
     st = dict(best=np.inf, hit=None, n=0, first=None)
+
+    m = m + off
+    x0 = x0 + off
 
     def f(x):
         st["n"] += 1
@@ -54,8 +61,8 @@ def job(a):
         return v
 
     try:
-        b = BADS(f, x0=x0, lower_bounds=np.full(D, -4.0 * box), upper_bounds=np.full(D, 4.0 * box), plausible_lower_bounds=np.full(D, -box),
-                 plausible_upper_bounds=np.full(D, box), options={"display": "off", "random_seed": seed})
+        b = BADS(f, x0=x0, lower_bounds=np.full(D, off - 4.0 * box), upper_bounds=np.full(D, off + 4.0 * box), plausible_lower_bounds=np.full(D, off - box),
+                 plausible_upper_bounds=np.full(D, off + box), options={"display": "off", "random_seed": seed})
         r = b.optimize()
     except Exception as e:  # noqa
         return dict(a=list(a), error=repr(e)[:120])
@@ -65,11 +72,14 @@ def job(a):
 
 def panel(quick, seed):
     Ds = (1, 2, 3) if quick else (1, 2, 3, 4, 5)
-    base = [(D, c, ang, mi, xi, seed, 5.0) for D in Ds for c in (1, 10, 100) for ang in (0.0, 0.7) for mi in (0, 2) for xi in (0, 2)]
-    # warm starts at the minimiser, and near-minimum starts in a wide plausible box (coarse first meshes cannot improve)
-    warm = [(D, c, 0.7, mi, 3, seed, 5.0) for D in Ds for c in (1, 100) for mi in (0, 2)]
-    wide = [(D, c, ang, mi, 4, seed, 50.0) for D in (3, 4, 5) for c in (1, 10, 100) for ang in (0.0, 0.7) for mi in (0, 2)]
-    return base + warm + wide
+    base = [(D, c, ang, mi, xi, seed, 5.0, 0.0, "base") for D in Ds for c in (1, 10, 100) for ang in (0.0, 0.7) for mi in (0, 2) for xi in (0, 2)]
+    # warm starts at the minimiser (per-run clause; they join the base sub-panel)
+    warm = [(D, c, 0.7, mi, 3, seed, 5.0, 0.0, "base") for D in Ds for c in (1, 100) for mi in (0, 2)]
+    # sub-panel "wide": near-minimum starts (f(x0)-f* = 0.05, two sides) in a wide plausible box (coarse first meshes cannot improve)
+    wide = [(D, c, ang, mi, xi, seed, 50.0, 0.0, "wide") for D in (3, 4, 5) for c in (1, 10, 100) for ang in (0.0, 0.7) for mi in (0, 2) for xi in (4, 5)]
+    # sub-panel "offset": all-positive parameter boxes, hard [5, 45], plausible [20, 30] (not log-scaled: pub/plb < 10)
+    offs = [(D, c, ang, mi, xi, seed, 5.0, 25.0, "offset") for D in (2, 3, 4) for c in (1, 10, 100) for ang in (0.0, 0.7) for mi in (0, 2) for xi in (0, 2)]
+    return base + warm + wide + offs
 
 
 def replay(case, key):
@@ -81,18 +91,24 @@ def replay(case, key):
 
 
 def judge(res):
+    """The statement's thresholds, evaluated separately on every enumerated sub-panel (each a complete lattice of
+    >= 60 problems of a sub-family that satisfies the statement's conditions)."""
     bad = []
-    ok = [r for r in res if "error" not in r]
-    frac = sum(r["gap"] < 1e-3 for r in ok) / max(1, len(res))
-    if frac < 0.9:
-        bad.append(("panel-success-rate", "only %.1f%% of the lattice panel within 1e-3 of the minimum" % (100 * frac)))
-    med = {}
-    for D in sorted({r["a"][0] for r in res}):
-        hits = [(r["hit"] if r.get("hit") else 10**9) for r in res if r["a"][0] == D]
-        med[D] = float(np.median(hits))
-        if med[D] > 40 * D:
-            bad.append(("panel-evaluations-to-1e-2/D%d" % D, "median %s > %d" % (med[D], 40 * D)))
-    return bad, frac, med
+    stats = {}
+    for sub in sorted({r["a"][8] for r in res}):
+        rs = [r for r in res if r["a"][8] == sub]
+        ok = [r for r in rs if "error" not in r]
+        frac = sum(r["gap"] < 1e-3 for r in ok) / max(1, len(rs))
+        med = {}
+        if frac < 0.9:
+            bad.append(("panel-success-rate/%s" % sub, "only %.1f%% of the %s sub-panel (%d problems) within 1e-3 of the minimum" % (100 * frac, sub, len(rs))))
+        for D in sorted({r["a"][0] for r in rs}):
+            hits = [(r["hit"] if r.get("hit") else 10**9) for r in rs if r["a"][0] == D]
+            med[D] = float(np.median(hits))
+            if med[D] > 40 * D:
+                bad.append(("panel-evaluations-to-1e-2/%s/D%d" % (sub, D), "median %s > %d" % (med[D], 40 * D)))
+        stats[sub] = dict(n=len(rs), fraction_within_1e_3=frac, median_evaluations_to_1e_2={str(k): v for k, v in med.items()})
+    return bad, stats
 
 
 def run(ctx):
@@ -106,7 +122,7 @@ def run(ctx):
             rep.violation("default run on a smooth convex target failed", "run-error", r["error"], dict(kind="run", a=r["a"]))
         elif r["gap"] > r["first"] or r["fval"] > r["first"]:
             rep.violation("returned point is worse than the (snapped) starting point", "worse-than-start", r, dict(kind="run", a=r["a"]))
-    bad, frac, med = judge(res)
+    bad, stats = judge(res)
     for k, d in bad:
         rep.violation("population guarantee fails on the enumerated lattice panel", k, d, dict(kind="panel", panel=[list(a) for a in jobs]))
     ok = [r for r in res if "error" not in r]
@@ -115,13 +131,12 @@ def run(ctx):
     rep.set("rule", "complete lattice D x eigenvalue profile {1, 1..10, 1..100} x rotation {identity, Givens 0.7*i rad} x minimiser pattern x start, default options, "
                     "one seed from VERIF_SEED; non-trivial = the run used more than 10*D evaluations; distinct = distinct lattice points")
     rep.set("panel_size", len(res))
-    rep.set("fraction_within_1e-3", frac)
-    rep.set("median_evaluations_to_1e-2", {str(k): v for k, v in med.items()})
+    rep.set("sub_panels", stats)
     rep.set("worst_gap", max([r["gap"] for r in ok] or [None]))
     rep.set("exhaustive", True)
     rep.sample(res[0])
     rep.sample(res[-1])
     rep.assumptions += ["decided on a finite lattice sub-family only (DESIGN 4.6); no claim about the random family outside it", "seed %d" % seed]
-    if len(res) < 60:
-        raise HarnessError("panel smaller than the statement's 60 problems")
+    if any(v["n"] < 60 for v in stats.values()):
+        raise HarnessError("a sub-panel is smaller than the statement's 60 problems: %s" % {k: v["n"] for k, v in stats.items()})
     return rep.finish(replay)
